@@ -4,10 +4,12 @@
    Proved for ALL inputs: the error path (a lexer/parser error returns the input unchanged and
    reports an error, and only then).  PARTIAL: retention is proved for comment-free input whose
    token texts are clean: the printed tokens are exactly the tokens of the canonical tree (nothing
-   lost, only a comma after a match pair invented, only key-list items moved), every separator is
-   white space.  The full statement (with comments, doc strings with line breaks, mixed key lists)
-   is FALSE of the faithful model: the *_refuted lemmas carry witnesses, replayed on the real
-   formatter on every run (recorded findings fmt-CMT-*, fmt-KL-REORDER, fmt-DOC-REINDENT ...).
+   lost, only a comma after a match pair invented, nothing moved: C09_canon_adds_commas_only_thm),
+   every separator is white space.  The full statement (with a comment between two tokens of a
+   field, doc strings with line breaks) is FALSE of the faithful model: the *_refuted lemmas carry
+   witnesses, replayed on the real formatter on every run (recorded findings fmt-CMT-INSIDE-NODE,
+   fmt-DOC-REINDENT ...).  Repaired and no longer refuted: comments of MetaData blocks, in front of a
+   closing brace, in front of attributes, at the end of the text; mixed key lists (examples below).
    "Compiles to byte-identical outputs" is checked on the real compiler by the harness. *)
 From FP Require Import PT Flatten Tokens Lexer Parser Formatter FmtDefs FmtDoc FmtSafe FmtPure FmtErase FmtDocProofs FmtProofs.
 From Coq Require Import String List NArith.
@@ -43,23 +45,27 @@ Theorem C09_retention_comment_refuted_w :
 Proof. exact (C09_retention_comment_refuted). Qed.
 Print Assumptions C09_retention_comment_refuted_w.
 
-(* recorded finding: the full statement fails on this witness *)
-Theorem C09_retention_metadata_refuted_w :
-  snd (format_text (runes_of_string meta_text)) = true
-  /\ comments_of (runes_of_string meta_text) = ["// c"]
-  /\ comments_of (runes_of_string (formatted meta_text)) = [].
-Proof. exact (C09_retention_metadata_refuted). Qed.
-Print Assumptions C09_retention_metadata_refuted_w.
+(* the canonical tree differs from a tree of the parser by the commas of match pairs only *)
+Theorem C09_canon_adds_commas_only_thm : forall n p,
+  ok_match_pair n p = true ->
+  canon_match_pair p = mkMatchPair (mp_span p) (mp_key p) (mp_colon p) (mp_ident p) (Some (comma_of (mp_comma p))).
+Proof. exact (C09_canon_adds_commas_only). Qed.
+Print Assumptions C09_canon_adds_commas_only_thm.
 
-(* recorded finding: the full statement fails on this witness *)
-Theorem C09_retention_keylist_refuted_w :
+(* repaired findings: their witnesses keep every comment and are fixed points of the formatter *)
+Theorem C09_comments_kept_examples_thm :
+  kept meta_text = true /\ kept before_meta_text = true /\ kept rbrace_text = true /\ kept attr_text = true
+  /\ kept at_end_text = true /\ kept trim_end_text = true /\ kept match_comment_text = true.
+Proof. exact (C09_comments_kept_examples). Qed.
+Print Assumptions C09_comments_kept_examples_thm.
+
+(* repaired finding: a mixed key list keeps its order *)
+Theorem C09_keylist_order_kept_example_thm :
   snd (format_text (runes_of_string mixed_text)) = true
-  /\ default_texts_of (runes_of_string mixed_text)
-     = ["packet"; "A"; "{"; "match"; "k"; "as"; "n"; "{"; "["; """a"""; ","; "1"; "]"; ":"; "B"; ","; "}"; ","; "}"]
-  /\ default_texts_of (runes_of_string (formatted mixed_text))
-     = ["packet"; "A"; "{"; "match"; "k"; "as"; "n"; "{"; "["; "1"; ","; """a"""; "]"; ":"; "B"; ","; "}"; ","; "}"].
-Proof. exact (C09_retention_keylist_refuted). Qed.
-Print Assumptions C09_retention_keylist_refuted_w.
+  /\ default_texts_of (runes_of_string (formatted mixed_text)) = default_texts_of (runes_of_string mixed_text)
+  /\ formatted mixed_text = mixed_text.
+Proof. exact (C09_keylist_order_kept_example). Qed.
+Print Assumptions C09_keylist_order_kept_example_thm.
 
 (* recorded finding: the full statement fails on this witness *)
 Theorem C09_retention_doc_refuted_w :
